@@ -7,7 +7,9 @@ ENTRY = dict(
          "(implicit handshakes) against a server that waits for the client's request; every 7th run: HandshakeContext with a context that is "
          "already cancelled / expired / expiring within microseconds at call time, before or after the handshake completed; every 7th run: a "
          "single HandshakeContext caller whose ctx is cancelled right after the k-th transport write (k=1..3, incl. the last flight) or k-th "
-         "read (k=1..5) through a conn wrapper, optionally waiting until the transport is closed; one of seven "
+         "read (k=1..5) through a conn wrapper, optionally waiting until the transport is closed; every 14th run: silent peer without I/O "
+         "deadline, an owner with the background ctx blocked in I/O, 1..3 queued callers whose contexts are cancelled at various times (3 s "
+         "watchdog); one of seven "
          "runs: TLS 1.2 server (the package's own, hook VerifSendHelloRequest) that sends a HelloRequest while a reader sits in Read and "
          "2..4 goroutines spin on Handshake/HandshakeContext/Write; 8 runs in parallel; the same workload "
          "again under the race detector. Distinct by (id, server, callers, cancellations, close kind, results); non-trivial with more than two callers.",
